@@ -106,6 +106,32 @@ class Mixed2(D3, Other):
     pass
 
 
+# classes that list the SAME two bases in different orders: both `Base` and `Other` are common bases of all six, and which of
+# the two comes first in the MRO differs between the MA and the MB classes
+class MA1(Base, Other):
+    pass
+
+
+class MA2(Base, Other):
+    pass
+
+
+class MA3(Base, Other):
+    pass
+
+
+class MB1(Other, Base):
+    pass
+
+
+class MB2(Other, Base):
+    pass
+
+
+class MB3(Other, Base):
+    pass
+
+
 # two DIFFERENT classes that print alike (same module, same name): what a class factory or a reload leaves behind. Only
 # one of them is `fxh.Twin`; neither can be told from the other by repr() or by module + qualified name.
 TwinA = type("Twin", (), {"__module__": __name__})
